@@ -131,13 +131,35 @@ def run(res: Results, idx: Index, tier: str) -> None:
         raise AnalysisError("ScanPlugin not found")
     slow = sc.methods["lower"]
     g = cfg_of(slow.node)
-    key = f"{LAX}scan.py::ScanPlugin.lower::reverse-rejected"
-    guards = [n for n in walk_no_nested(slow.node) if isinstance(n, ast.If) and "reverse" in str_consts_in(n.test) and any(isinstance(s, ast.Raise) for s in n.body)]
-    emits = [enclosing_stmt(c) for c in walk_no_nested(slow.node) if isinstance(c, ast.Call) and ((call_name(c) or "").split(".")[-1].startswith("_lower_") or ".builder." in (call_name(c) or ""))]
-    if guards and emits and all(g.must_pass_edges(g.nodes_of(e), [(n, "F") for gd in guards for n in g.nodes_of(gd)]) for e in emits if e is not None):
-        res.ok("R-C06b", f"{LAX}scan.py:{guards[0].lineno}", key, "`reverse=True` raises before any lowering", slow.qualname)
-    else:
-        res.violation("R-C06b", f"{LAX}scan.py:{slow.node.lineno}", key, "a reverse scan is not rejected before lowering: it would be exported as a forward scan", slow.qualname)
+    # reverse scans: on the path to every lowering call either `reverse` is known False as a whole atom
+    # (a conjunction such as `reverse and num_scan > 0` being false does not imply that), or the callee reads it
+    ds_ = defuse(slow.node)
+
+    def _reads_reverse(e: ast.AST) -> bool:
+        if "reverse" in str_consts_in(e) and not isinstance(e, ast.BoolOp):
+            return True
+        if isinstance(e, ast.Name):
+            return any("reverse" in str_consts_in(v) and not isinstance(v, ast.BoolOp) for v in ds_.values(e.id))
+        return False
+    lowering_calls = [c for c in walk_no_nested(slow.node) if isinstance(c, ast.Call) and ((call_name(c) or "").split(".")[-1].startswith("_lower_") or ".builder." in (call_name(c) or ""))]
+    if not lowering_calls:
+        raise AnalysisError("ScanPlugin.lower no longer calls a _lower_* method")
+    from .c01 import reads_in_function
+    for c in lowering_calls:
+        cname = (call_name(c) or "").split(".")[-1]
+        key = f"{LAX}scan.py::ScanPlugin.lower::reverse::{cname}"
+        rejected = any((not want) and _reads_reverse(e) for e, want in path_conditions(c))
+        callee = sc.methods.get(cname)
+        consumes = False
+        if callee is not None:
+            keys, esc = reads_in_function(callee)
+            consumes = "reverse" in keys or any(a.arg == "reverse" for a in callee.node.args.args + callee.node.args.kwonlyargs)  # type: ignore[attr-defined]
+        if rejected:
+            res.ok("R-C06b", f"{LAX}scan.py:{c.lineno}", key, "`reverse=True` raises on every path before this lowering", slow.qualname)
+        elif consumes:
+            res.ok("R-C06b", f"{LAX}scan.py:{c.lineno}", key, f"{cname}() reads the `reverse` parameter itself", slow.qualname)
+        else:
+            res.violation("R-C06b", f"{LAX}scan.py:{c.lineno}", key, f"{cname}() can be reached with reverse=True (no test of `reverse` alone is false on the path) and does not read `reverse`: a reverse scan is exported as a forward one", slow.qualname)
     key = f"{LAX}scan.py::ScanPlugin::scanned-extent-consistency"
     ext = [n for f in sc.methods.values() for n in walk_no_nested(f.node) if isinstance(n, ast.If) and isinstance(n.test, ast.Compare) and isinstance(n.test.ops[0], ast.NotEq) and any(isinstance(s, ast.Raise) for s in n.body) and "trip" in ast.unparse(n.test)]
     if ext:
